@@ -603,23 +603,31 @@ def listener_pairing(ctx, res):
     if tbl is None:
         raise AnalysisError("_remove_trait_delegate_listener: listener "
                             "table local not found")
+    from ..pyfacts import expand_locals
     unregs = [c for c in ast.walk(blk) if is_self_call(c, "on_trait_change")]
     ok = False
     pattern_exprs = []
     if len(unregs) == 1:
         c = unregs[0]
         kws = {k.arg: norm(k.value) for k in c.keywords}
-        ok = (norm(c.args[0]) == f"{tbl}[{rps[1]}]"
-              and norm(c.args[1]).startswith(
+        exp_tbl = norm(expand_locals(rem, ast.Name(tbl, ast.Load())))
+        a0 = expand_locals(rem, c.args[0])
+        a1 = expand_locals(rem, c.args[1])
+        ok = (norm(a0).replace(exp_tbl, tbl) in (f"{tbl}[{rps[1]}]",
+                                                 f"{tbl}.pop({rps[1]})")
+              and norm(a1).startswith(
                   f"self._trait_delegate_name({rps[1]}, ")
               and kws.get("remove") == "True")
-        pattern_exprs.append(c.args[1])
+        pattern_exprs.append(a1)
     res.oblige(ok, "remove:unregister", mod.loc(rem),
                "detaching must call on_trait_change(<recorded handler>, "
                "self._trait_delegate_name(name, <class pattern>), "
                "remove=True)")
     dels = [norm(d.targets[0]) for d in ast.walk(blk)
             if isinstance(d, ast.Delete)]
+    dels += [f"{tbl}[{rps[1]}]" for c_ in ast.walk(blk)
+             if isinstance(c_, ast.Call)
+             and norm(c_) == f"{tbl}.pop({rps[1]})"]
     res.oblige(f"{tbl}[{rps[1]}]" in dels, "remove:table", mod.loc(rem),
                "the table entry is not deleted when the listener is detached "
                "(deleting the local value would not re-attach it)")
@@ -628,9 +636,16 @@ def listener_pairing(ctx, res):
     tail = rem.body[rem.body.index(rm_if[0]) + 1:] + rm_if[0].orelse
     re_init = [c for c in ast.walk(ast.Module(tail, []))
                if is_self_call(c, "_init_trait_delegate_listener")]
-    guards = [norm(i.test) for i in ast.walk(ast.Module(tail, []))
+    exp_tbl = norm(expand_locals(rem, ast.Name(tbl, ast.Load())))
+
+    def _gnorm(t):
+        t = norm(expand_locals(rem, t)).replace(exp_tbl, tbl)
+        m_ = re.fullmatch(r"not \(?(\w+) in (\w+)\)?", t)
+        return f"{m_.group(1)} not in {m_.group(2)}" if m_ else t
+    guards = [_gnorm(i.test) for i in ast.walk(ast.Module(tail, []))
               if isinstance(i, ast.If)]
-    guards += [norm(i.test) for i in rm_if[0].orelse if isinstance(i, ast.If)]
+    guards += [_gnorm(i.test) for i in rm_if[0].orelse
+               if isinstance(i, ast.If)]
     res.oblige(len(re_init) == 1 and f"{rps[1]} not in {tbl}" in guards,
                "remove:restore", mod.loc(rem),
                "deleting the local value must re-attach the listener (only "
@@ -696,6 +711,12 @@ def listener_restore(ctx, res):
 
         def step(s, st, ev, e, node):
             return st | {("DID", "init")}
+    flagdefs = {}
+    for a in ast.walk(fn):
+        if isinstance(a, ast.Assign) and len(a.targets) == 1 \
+                and isinstance(a.targets[0], ast.Name) \
+                and isinstance(a.value, ast.Compare):
+            flagdefs[a.targets[0].id] = norm(a.value)
     fl = F(mod, fn, "HasTraits._remove_trait_delegate_listener")
     fl.run(frozenset())
     g = fl.cfg
@@ -707,9 +728,16 @@ def listener_restore(ctx, res):
         n_paths += 1
         if ("DID", "init") in st:
             continue
-        recorded = any(f[0] == "F" and f[1].startswith(f"{namep} not in ")
-                       for f in st) or any(
-            f[0] == "T" and f[1].startswith(f"{namep} in ") for f in st)
+        def _member(f):
+            """(truth of `name in <table>`) established by a fact, through a
+            flag local when the test was hoisted"""
+            t = flagdefs.get(f[1], f[1])
+            if t.startswith(f"{namep} not in "):
+                return f[0] == "F"
+            if t.startswith(f"{namep} in "):
+                return f[0] == "T"
+            return None
+        recorded = any(_member(f) is True for f in st)
         if not recorded:
             bad.append(st)
     res.instance("_remove_trait_delegate_listener:restore", mod.loc(fn),
